@@ -574,3 +574,23 @@ func elemBytes(v ssa.Value) int64 {
 	}
 	return n
 }
+
+// SliceToArrayFits proves that a slice-to-array conversion does not panic:
+// len(slice) >= N for the array length N.
+func (w *World) SliceToArrayFits(x *ssa.SliceToArrayPointer) Outcome {
+	fi := w.Info(x.Parent())
+	c := fi.ctxBefore(x)
+	pt, ok := x.Type().Underlying().(*types.Pointer)
+	if !ok {
+		return Outcome{Proved: false, Failed: "not a pointer to an array"}
+	}
+	arr, ok := pt.Elem().Underlying().(*types.Array)
+	if !ok {
+		return Outcome{Proved: false, Failed: "not a pointer to an array"}
+	}
+	g := lin.GE(c.LenOf(x.X), lin.K(arr.Len()))
+	if c.Prove(g) {
+		return Outcome{Proved: true, Goals: []string{c.Describe(g)}}
+	}
+	return Outcome{Proved: false, Failed: c.Describe(g), Facts: c.FactStrings(g, 16)}
+}
